@@ -2,17 +2,18 @@
    one canonical observation per line, computed by the functions extracted from Coq. *)
 open Model
 open Conv
+open Values
 
-let obs_line_col (text : z list) (off : z) : string =
+let obs_line_col (text : z list) (off : z) : ostring =
   match line_col text off with
   | None -> "none"
   | Some (l, c) -> Printf.sprintf "%s,%s" (string_of_zint l) (string_of_zint c)
 
-let obs_diag ((sl, c) : (z * z) * z) : string =
+let obs_diag ((sl, c) : (z * z) * z) : ostring =
   let (s, l) = sl in
   Printf.sprintf "%s/%s/%s" (string_of_zint s) (string_of_zint l) (string_of_zint c)
 
-let obs_token (t : token) : string =
+let obs_token (t : token) : ostring =
   let has_val = match t.tk with
     | KNumber | KString | KIdent | KTrue | KFalse | KNull | KThis | KCtx | KTypeof -> true
     | _ -> false in
@@ -22,7 +23,7 @@ let obs_token (t : token) : string =
     (if has_val then hex_of_bytes t.tval else "-")
     (String.concat "," (List.map obs_diag t.tdiags))
 
-let obs_scan (text : z list) : string =
+let obs_scan (text : z list) : ostring =
   match scan_all text with
   | None -> "out-of-fuel"
   | Some toks -> String.concat ";" (List.map obs_token toks)
@@ -58,7 +59,7 @@ let rec tree (b : Buffer.t) (x : expr) : unit =
     add (Printf.sprintf "] %s %s %s %s %s)" (zi lp) (zi le)
            (match sp with None -> "-" | Some (a, c) -> zi a ^ "/" ^ zi c) (zi p) (zi e))
 
-let obs_parse (text : z list) : string =
+let obs_parse (text : z list) : ostring =
   match parse_source text with
   | OutOfFuel -> "out-of-fuel"
   | Accepted e -> let b = Buffer.create 256 in Buffer.add_string b "A "; tree b e; Buffer.contents b
@@ -70,7 +71,36 @@ let obs_parse (text : z list) : string =
                            (String.concat "," (List.map obs_diag all)));
     tree b e; Buffer.contents b
 
-let run_case (fields : string list) : string =
+let print_call (b : Buffer.t) ((id, args) : z * value list) : unit =
+  Buffer.add_string b (zi id); Buffer.add_char b '(';
+  List.iteri (fun i a -> if i > 0 then Buffer.add_char b ' '; print_val b a) args;
+  Buffer.add_char b ')'
+
+let obs_state (out : value outcome) (st : rstate) : ostring =
+  let b = Buffer.create 128 in
+  (match out with
+   | Ok v -> Buffer.add_string b "V "; print_val b v
+   | Err -> Buffer.add_string b "E"
+   | Panic -> Buffer.add_string b "P"
+   | Unk -> Buffer.add_string b "U");
+  Buffer.add_char b '|';
+  (match st.r_this with
+   | None -> Buffer.add_char b '-'
+   | Some m -> print_val b (VMap m));
+  Buffer.add_char b '|';
+  List.iteri (fun i c -> if i > 0 then Buffer.add_char b ';'; print_call b c) (List.rev st.r_trace);
+  Buffer.contents b
+
+let obs_eval (text : z list) (off : z) (hosts : ostring) (data : ostring) : ostring =
+  match parse_source text with
+  | Accepted e ->
+    let hs = hosts_of_spec hosts in
+    let this = if data = "-" then None else (match value_of_wire data with VMap m -> Some m | _ -> None) in
+    let (out, st) = eval hs off (strip e) { r_this = this; r_trace = [] } in
+    obs_state out st
+  | _ -> "parse-error"
+
+let run_case (fields : ostring list) : ostring =
   match fields with
   | ["LC"; text; off] ->
     let t = bytes_of_hex text and o = z_of_dec off in
@@ -80,6 +110,7 @@ let run_case (fields : string list) : string =
     String.concat "," (List.map string_of_zint (line_starts (bytes_of_hex text)))
   | ["SC"; text] -> obs_scan (bytes_of_hex text)
   | ["PA"; text] -> obs_parse (bytes_of_hex text)
+  | ["EV"; text; off; hosts; data] -> obs_eval (bytes_of_hex text) (z_of_dec off) hosts data
   | cmd :: _ -> "unknown-command:" ^ cmd
   | [] -> "empty"
 
